@@ -35,6 +35,7 @@ CONSTANTS Lens,        \* set of chain lengths n = to - prevheight
           PrevKinds,   \* subset of {"nil", "map"}: validation starts at genesis / after a given map
           PrevH,       \* height of the given previous map when PrevKind = "map"
           ScenKinds,   \* subset of {"valid","wrongprev","altered","wrongheight","swap","error"}
+          ScenPos,     \* positions (request indices; 0 and n+1 = just outside) a scenario may name
           Variants,    \* subset of {"pinned","fixed"}
           Interleave,  \* TRUE: answers of a batch arrive in any order; FALSE: a random-free ascending order
           Emit         \* TRUE: terminal states carry the JSON case in `step`
@@ -90,10 +91,12 @@ WellFormed == \A i \in 1..n : Fetch(i) # Err => Fetch(i).h = H(i)   \* every ans
 
 -----------------------------------------------------------------------------
 Scens(len) ==
-  [kind : {"valid"} \cap ScenKinds, i : {0}, j : {0}]
-  \cup [kind : {"wrongprev", "altered", "error"} \cap ScenKinds, i : 1..len, j : {0}]
-  \cup {s \in [kind : {"wrongheight"} \cap ScenKinds, i : 1..len, j : 0..(len + 1)] : s.i # s.j}
-  \cup {s \in [kind : {"swap"} \cap ScenKinds, i : 1..len, j : 1..len] : s.i < s.j}
+  LET P == ScenPos \cap (1..len)
+      Q == ScenPos \cap (0..(len + 1))
+  IN [kind : {"valid"} \cap ScenKinds, i : {0}, j : {0}]
+     \cup [kind : {"wrongprev", "altered", "error"} \cap ScenKinds, i : P, j : {0}]
+     \cup {s \in [kind : {"wrongheight"} \cap ScenKinds, i : P, j : Q] : s.i # s.j}
+     \cup {s \in [kind : {"swap"} \cap ScenKinds, i : P, j : P] : s.i < s.j}
 
 Init == /\ n \in Lens /\ limit \in Limits /\ pk \in PrevKinds /\ variant \in Variants
         /\ scen \in Scens(n)
